@@ -346,3 +346,64 @@ Section TW.
         end
     end.
 End TW.
+
+(* ---------- the offsets the writer uses, token by token, aligned with [wtoks] (None: a token that is written directly behind its
+   predecessor: the tag behind /begin and /end) ---------- *)
+Definition scalar_offs (ty : fty) (v : value) : list (option N) :=
+  match ty, v with
+  | FInt _, VScalar (SInt _ _) off => [Some off]
+  | (FDouble | FFloat), VScalar (SFloat _) off => [Some off]
+  | (FIdent | FEnum _), VScalar (SText _) off => [Some off]
+  | (FString | FStringMax _), VScalar (SText _) off => [Some off]
+  | _, _ => []
+  end.
+Definition closing_offs (isb : bool) (v : value) : list (option N) :=
+  if isb then [Some (l_eo (layout_of v)); None] else [].
+Definition kid_offs (ti : titem) (k : value) (inner : list (option N)) : list (option N) :=
+  if ti_block ti then Some (l_so (layout_of k)) :: None :: inner ++ [Some (l_eo (layout_of k)); None]
+  else Some (l_so (layout_of k)) :: inner.
+Section Offs.
+  Variable S : spec.
+  Variable posrs : list (string * posr).
+  Section Items.
+    Variable wo : value -> list (option N).
+    Definition field_offs (ty : fty) (fv : value) : list (option N) :=
+      match ty, fv with
+      | FStruct _, _ => wo fv
+      | FArray t _, VList l => flat_map (scalar_offs t) l
+      | FSeq (FStruct _) _, VList l => flat_map wo l
+      | FSeq t _, VList l => flat_map (scalar_offs t) l
+      | _, _ => scalar_offs ty fv
+      end.
+    Definition group_offs (titems : list titem) (mine : list (list value)) : list (option N) :=
+      flat_map (fun e : entry => kid_offs (snd (fst e)) (snd e) (wo (snd e))) (ordered_kids S posrs titems mine).
+    Fixpoint items_offs (its : list item) (fields : list value) (kids : list (list value)) : list (option N) :=
+      match its with
+      | [] => []
+      | IField _ ty :: r =>
+          match fields with
+          | fv :: fr => field_offs ty fv ++ items_offs r fr kids
+          | [] => []
+          end
+      | ITagged _ _ titems :: r =>
+          group_offs titems (firstn (length titems) kids) ++ items_offs r fields (skipn (length titems) kids)
+      end.
+  End Items.
+  Fixpoint woffs (fuel : nat) (v : value) {struct fuel} : list (option N) :=
+    match fuel with
+    | O => []
+    | Datatypes.S f =>
+        match v with
+        | VNode ty _ fields kids _ =>
+            match lookup_ty S ty with
+            | Some td => match t_special td with
+                         | None => items_offs (woffs f) (t_items td) fields kids
+                         | Some _ => []
+                         end
+            | None => []
+            end
+        | _ => []
+        end
+    end.
+End Offs.
+
